@@ -18,6 +18,8 @@ package engines
 // tag, never demanded — the property only says delivery works AGAIN) | `fini` (always appended; followed by the
 // inertness checks).  postat=E: the posters start once eventQ holds E events (PostEvent at capacity-1 / capacity from
 // several goroutines); rzs=WxH: a size change + notification while a Suspend call is in progress.
+// `free` releases every goroutine from the controller for the rest of the case (real Go scheduling; the trace ends there),
+// `sleep MS` (free running only), `freecheck` (free running only: every injected event arrives, exactly once, in order).
 //
 // Observation: `ok` (the Lean driver answers `ok` for a well-formed line); a controller problem is printed as
 // `ERROR …` and therefore shows up as a correspondence break, never as a finding.  The trace of schedule points is
@@ -535,6 +537,15 @@ func genPipeOne(r *h.Rand, kind int) string {
 		}
 		ops := fmt.Sprintf(" ; wait fill %d %d ; suspend ; mid ; unpause ; resume ; more ; check2 ; fini", e, k)
 		return hdr(steps, exp, expat, fmt.Sprintf("feed2=%s exp2=%s feedm=%s expm=%s cons=%s %s %s%s draw=%d", ppJoin(steps2), ppJoin(exp2), ppJoin(stepsM), ppJoin(expM), ppCons(r), stop, post(), rzs, r.Intn(2))) + ops
+	case 8: // free running (no serialising controller): single-byte input, a consumer that stops for a while, posters
+		items := ppItems(r, r.Range(30, 150), false, 0)
+		steps, exp, expat := ppFeed(r, items, 3, 0, 0, -1)
+		ps := "post=0"
+		if r.Chance(50) {
+			ps = fmt.Sprintf("post=%dx%d", r.Range(1, 4), r.Range(2, 8))
+		}
+		return hdr(steps, exp, expat, fmt.Sprintf("cons=%s stop=%d %s draw=0", ppCons(r), r.Range(0, 12), ps)) +
+			fmt.Sprintf(" ; free ; sleep %d ; unpause ; freecheck ; fini", r.Range(5, 40))
 	default: // a read error somewhere, then steady check or a shutdown at a fill level
 		items := ppItems(r, r.Range(5, 40), false, 0)
 		nchunksGuess := len(items)/2 + 1
@@ -559,7 +570,7 @@ func genPipe(g *h.Gen) {
 	n := g.N(400, 3000)
 	// directed cases first: the two shutdown situations the design names, at every fill level of the event queue
 	for i := 0; i < n; i++ {
-		kind := []int{0, 1, 2, 3, 2, 3, 0, 4, 5, 6, 7}[i%11]
+		kind := []int{0, 1, 2, 3, 2, 3, 0, 4, 5, 6, 7, 8}[i%12]
 		g.Emit("%s", genPipeOne(g.R, kind))
 	}
 	ppLines = append(ppLines, g.Lines...)
